@@ -231,17 +231,20 @@ pub fn has_anchors(m: &CMap2<f64>) -> bool {
     m.contains_attribute::<VertexAnchor>() && m.contains_attribute::<EdgeAnchor>() && m.contains_attribute::<FaceAnchor>()
 }
 
-/// the `a6 | a7 | a8` groups of `snap` (only when the three anchor storages exist)
+/// the `a6 | a7 | a8` groups of `snap`: one group per anchor storage the map contains
 pub fn snap_parts(m: &CMap2<f64>) -> Vec<String> {
-    if !has_anchors(m) {
-        return vec![];
-    }
     let n = m.n_darts() as DartIdType;
-    vec![
-        format!("a6: {}", (0..n).map(|x| v_code(m.force_read_attribute::<VertexAnchor>(x))).collect::<Vec<_>>().join(" ")),
-        format!("a7: {}", (0..n).map(|x| e_code(m.force_read_attribute::<EdgeAnchor>(x))).collect::<Vec<_>>().join(" ")),
-        format!("a8: {}", (0..n).map(|x| f_code(m.force_read_attribute::<FaceAnchor>(x))).collect::<Vec<_>>().join(" ")),
-    ]
+    let mut parts = vec![];
+    if m.contains_attribute::<VertexAnchor>() {
+        parts.push(format!("a6: {}", (0..n).map(|x| v_code(m.force_read_attribute::<VertexAnchor>(x))).collect::<Vec<_>>().join(" ")));
+    }
+    if m.contains_attribute::<EdgeAnchor>() {
+        parts.push(format!("a7: {}", (0..n).map(|x| e_code(m.force_read_attribute::<EdgeAnchor>(x))).collect::<Vec<_>>().join(" ")));
+    }
+    if m.contains_attribute::<FaceAnchor>() {
+        parts.push(format!("a8: {}", (0..n).map(|x| f_code(m.force_read_attribute::<FaceAnchor>(x))).collect::<Vec<_>>().join(" ")));
+    }
+    parts
 }
 
 /// same darts, betas, removal flags, vertices and test attributes, plus the anchor storages
